@@ -89,6 +89,6 @@ QueryIsPure == [][(upd = "idle" /\ upd' = "idle" /\ run' = run) => iter' = iter]
 \* the canonical loop terminates
 RunTerminates == (run = "running") ~> (run \in {"finished", "aborted"})
 
-\* inductive invariant for ALL max_iter (discharged with Apalache, see MC_AlgLoopInd.tla)
+\* inductive invariant for ALL max_iter (strengthened and discharged with Apalache in apalache/MC_AlgLoopInd.tla)
 IndInv == TypeOK /\ CanonicalBudget /\ CounterIsUpdates /\ ExhaustedMeansDone
 ==========================================================================
